@@ -13,7 +13,9 @@ RULE = ('random composers (1-4 processes, 0-2 steps with flow, nested one level)
         'several times, at the same or different paths) and loose processes/topology/steps/flow/state, optionally at '
         'a path; every composite is snapshotted (structure + identity of its nested dicts) before and after every '
         'merge; the three engine entry points (composite / parts / generated store) run the same composite for a few '
-        'ticks. Non-trivial: >=2 merges or a non-empty embedding path; distinct by term.')
+        'ticks. Non-trivial: >=2 merges or a non-empty embedding path; distinct by term.'
+        ' Composites are built from partial configs (keys they do not have are omitted, as Composer.generate omits '
+        'state); a composite built before the merges, one built after them and Composite.defaults must stay empty.')
 ASSUMPTIONS = [
     'leaves of the five components are interned objects (Process instances by name, port paths, dependency lists, state values)',
     'the clause "leaves the merged-in composites unchanged, then and later" is about object identity and is decided by the snapshot oracle; the functional model has no aliasing',
